@@ -8,13 +8,18 @@ import (
 	"context"
 	"errors"
 	"fmt"
+	"os"
 	"regexp"
 	"runtime"
 	"sync"
 	"sync/atomic"
 	"time"
 
+	"github.com/ozontech/file.d/decoder"
 	"github.com/ozontech/file.d/pipeline"
+	"github.com/ozontech/file.d/pipeline/doif"
+	"github.com/ozontech/file.d/pipeline/metadata"
+	fileinput "github.com/ozontech/file.d/plugin/input/file"
 	insaneJSON "github.com/ozontech/insane-json"
 	"github.com/prometheus/client_golang/prometheus"
 	"go.uber.org/zap"
@@ -37,6 +42,15 @@ const (
 	LProbe      = 114 // (4 0 114 latencyMs boundMs src offset) time from In() to the input commit of a probe event
 	LProcCount  = 115 // (4 0 115 procCountAtQuiescence procCountAtStart) growProcs / expandProcs observed
 	LMaint      = 117 // (1 bidx 117 n) the batcher's MaintenanceFn ran for the n-th time (harness-only)
+	// early stop (option 9): Pipeline.Stop is called while events are in flight.  (4 0 116 inUse waiters accepted 0) is
+	// recorded right before the call INSTEAD of 115 / 110 (no quiescence is awaited, none is claimed), (4 0 120 inUse 0 0 0)
+	// after it returned
+	LStopCalled = 116
+	LStopDone   = 120
+	// file-input commit (option 8): InputPlugin.Commit is forwarded to the REAL plugin/input/file jobProvider.commit
+	// (4 0 118 stream offset src panicked) per forwarded commit, (4 0 119 src stream storedOffset 0) per stored offset at the end
+	LFileCommit = 118
+	LFileOffset = 119
 	// LPanic with a code >= 2 is an integrity failure seen by a fake action / the fake output (the real code handed over a
 	// recycled event that is not what was read): (k o 101 code actionIdx 0 0)
 	//   2 pad shorter / longer than the event says   3 pad bytes are not this event's   4 wide object lost fields
@@ -170,11 +184,90 @@ func unregister(key any) {
 
 // ---- fake plugins -----------------------------------------------------------------------------
 
-type fakeInput struct{ refuseOdd bool }
+type fakeInput struct {
+	refuseOdd bool
+	suggest   decoder.Type // != NO: what plugin/input/k8s does in Start
+	fc        *fileCommit  // != nil: commits go to the real file input's jobProvider.commit
+}
 
-func (f *fakeInput) Start(pipeline.AnyConfig, *pipeline.InputPluginParams) {}
-func (f *fakeInput) Stop()                                                 {}
-func (f *fakeInput) Commit(*pipeline.Event)                                {}
+func (f *fakeInput) Start(_ pipeline.AnyConfig, p *pipeline.InputPluginParams) {
+	if f.suggest != decoder.NO {
+		p.Controller.SuggestDecoder(f.suggest)
+	}
+}
+func (f *fakeInput) Stop() {}
+func (f *fakeInput) Commit(e *pipeline.Event) {
+	if f.fc != nil {
+		f.fc.commit(e)
+	}
+}
+
+// fileCommit: the second caller of the commit order (C02 anchors plugin/input/file/provider.go): every InputPlugin.Commit
+// of the case is handed to the real jobProvider.commit of the file input (one job per source, offsets per stream name).  That
+// code panics ("offset corruption") when a commit does not move the stream's offset forward, i.e. on every out-of-order or
+// repeated commit; the panic is caught and recorded, and the offsets the provider ends up with are read back through the real
+// offsetDB.save / load.
+type fileCommit struct {
+	log   *caseLog
+	pipe  any
+	prov  *fileinput.VerifC07Provider
+	mu    sync.Mutex
+	names map[[2]string]int64 // (source, stream name) -> stream address
+	file  string
+}
+
+func newFileCommit(log *caseLog, nsrc int) *fileCommit {
+	f, err := os.CreateTemp("", "verif-pipe-offsets-*.yaml")
+	if err != nil {
+		return nil
+	}
+	f.Close()
+	table := make([]fileinput.VerifC07Job, 0, nsrc)
+	for s := 1; s <= nsrc; s++ {
+		table = append(table, fileinput.VerifC07Job{Filename: fmt.Sprintf("/verif/src%d.log", s), Inode: uint64(100 + s), SourceID: uint64(s)})
+	}
+	return &fileCommit{log: log, prov: fileinput.VerifC07NewProvider(f.Name(), f.Name()+".tmp", table), names: map[[2]string]int64{}, file: f.Name()}
+}
+
+func (f *fileCommit) commit(e *pipeline.Event) {
+	panicked := int64(0)
+	sid := e.VerifStreamID()
+	func() {
+		defer func() {
+			if r := recover(); r != nil {
+				panicked = 1
+			}
+		}()
+		f.prov.Commit(e)
+	}()
+	f.mu.Lock()
+	f.names[[2]string{fmt.Sprint(uint64(e.SourceID)), string(e.StreamNameBytes())}] = sid
+	f.mu.Unlock()
+	f.log.add(f.pipe, LFileCommit, sid, e.Offset, int64(e.SourceID), panicked)
+}
+
+// finish records what the provider stored: one label per (source, stream) of the saved offsets file.
+func (f *fileCommit) finish() {
+	defer os.Remove(f.file)
+	defer os.Remove(f.file + ".tmp")
+	f.prov.Save()
+	table, err := fileinput.VerifC07Load(f.file)
+	if err != nil {
+		f.log.add(f.pipe, LFileOffset, -1, 0, 0, 0)
+		return
+	}
+	f.mu.Lock()
+	defer f.mu.Unlock()
+	for _, j := range table {
+		for _, st := range j.Streams {
+			sid, ok := f.names[[2]string{fmt.Sprint(j.SourceID), st.Name}]
+			if !ok {
+				sid = 0 // a stored stream nobody committed: index -1 in the canonical trace
+			}
+			f.log.add(f.pipe, LFileOffset, int64(j.SourceID), sid, st.Offset, 0)
+		}
+	}
+}
 func (f *fakeInput) PassEvent(e *pipeline.Event) bool {
 	n := e.Root.Dig("refuse")
 	return n == nil
@@ -233,6 +326,12 @@ func (a *fakeAction) Do(e *pipeline.Event) pipeline.ActionResult {
 		if a.idx < len(s) {
 			op = s[a.idx]
 		}
+	} else if s, ok := embeddedOps(e); ok && a.idx < len(s) {
+		// raw / cri decoder: the event text travels in "message" / "log"; its ops script is read from there
+		op = s[a.idx]
+		if op == 's' {
+			op = 'p' // no "kids" array to spawn from
+		}
 	}
 	if n := e.Root.Dig("slow"); n != nil {
 		time.Sleep(time.Duration(n.AsInt()) * time.Microsecond)
@@ -275,6 +374,19 @@ func (a *fakeAction) Do(e *pipeline.Event) pipeline.ActionResult {
 	return pipeline.ActionPass
 }
 
+var embeddedOpsRe = regexp.MustCompile(`"ops":"([a-z]*)"`)
+
+func embeddedOps(e *pipeline.Event) (string, bool) {
+	for _, f := range []string{"log", "message"} {
+		if n := e.Root.Dig(f); n != nil {
+			if m := embeddedOpsRe.FindStringSubmatch(n.AsString()); m != nil {
+				return m[1], true
+			}
+		}
+	}
+	return "", false
+}
+
 type outCfg struct {
 	kind     int // 0 synchronous commit, 1 Batcher, 2 RetriableBatcher (+ optional dead queue)
 	workers  int
@@ -289,6 +401,7 @@ type outCfg struct {
 	multPct     int
 	maintMs     int // > 0: MaintenanceFn / MaintenanceInterval of the main batcher
 	dqDelayMs   int // > 0: every send of the dead-queue output blocks that long before it acknowledges
+	batchBytes  int // > 0: BatchSizeBytes of the batchers (option 10)
 }
 
 type fakeOutput struct {
@@ -452,7 +565,7 @@ func (o *fakeOutput) Start(_ pipeline.AnyConfig, p *pipeline.OutputPluginParams)
 		bo := pipeline.BatcherOptions{
 			PipelineName: p.PipelineName, OutputType: "verif", Controller: &recCtl{o.log, func() any { return o.batch }, o.ctl, 0, o.own},
 			OutFn:   func(_ *pipeline.WorkerData, b *pipeline.Batch) { _ = o.send(0, b) },
-			Workers: o.cfg.workers, BatchSizeCount: o.cfg.count, FlushTimeout: time.Duration(o.cfg.flushMs) * time.Millisecond,
+			Workers: o.cfg.workers, BatchSizeCount: o.cfg.count, BatchSizeBytes: o.cfg.batchBytes, FlushTimeout: time.Duration(o.cfg.flushMs) * time.Millisecond,
 			MetricCtl: p.MetricCtl,
 		}
 		o.maintenance(&bo)
@@ -465,7 +578,7 @@ func (o *fakeOutput) Start(_ pipeline.AnyConfig, p *pipeline.OutputPluginParams)
 			o.dq = pipeline.NewBatcher(pipeline.BatcherOptions{
 				PipelineName: p.PipelineName, OutputType: "verifdq", Controller: &recCtl{o.log, func() any { return o.dq }, o.ctl, 1, o.own},
 				OutFn:   func(_ *pipeline.WorkerData, b *pipeline.Batch) { _ = o.send(1, b) },
-				Workers: 1, BatchSizeCount: o.cfg.count, FlushTimeout: time.Duration(o.cfg.flushMs) * time.Millisecond,
+				Workers: 1, BatchSizeCount: o.cfg.count, BatchSizeBytes: o.cfg.batchBytes, FlushTimeout: time.Duration(o.cfg.flushMs) * time.Millisecond,
 				MetricCtl: p.MetricCtl,
 			})
 			register(o.dq, o.log)
@@ -473,7 +586,7 @@ func (o *fakeOutput) Start(_ pipeline.AnyConfig, p *pipeline.OutputPluginParams)
 		}
 		opts := pipeline.BatcherOptions{
 			PipelineName: p.PipelineName, OutputType: "verif", Controller: &recCtl{o.log, func() any { return o.batch }, o.ctl, 0, o.own},
-			Workers: o.cfg.workers, BatchSizeCount: o.cfg.count, FlushTimeout: time.Duration(o.cfg.flushMs) * time.Millisecond,
+			Workers: o.cfg.workers, BatchSizeCount: o.cfg.count, BatchSizeBytes: o.cfg.batchBytes, FlushTimeout: time.Duration(o.cfg.flushMs) * time.Millisecond,
 			MetricCtl: p.MetricCtl,
 		}
 		o.maintenance(&opts)
@@ -537,13 +650,142 @@ func ExpandEvent(js []byte, off int64, padLen, nWide int) []byte {
 	return append(out, '}')
 }
 
+// xopts: the options of ext's 6th element, ((key value) ...).  Zero value = the historical behaviour.
+//
+//	1 decoder      0 json | 1 raw | 2 cri | 3 auto (nobody suggests: json) | 4 auto, the input suggests cri in Start (as k8s does)
+//	               | 5 json, the input suggests cri all the same (ignored: the decoder is not auto)
+//	2 maxEventSize Settings.MaxEventSize (bytes); 3 cutoff: 0 drop | 1 CutOffEventByLimit | 2 ... and CutOffEventByLimitField "cut"
+//	4 antispam     threshold (> 0) with a maintenance interval of 30 ms
+//	5 meta         1 every In carries meta {"mk":"s<src>"} | 2 ... and SourceNameMetaField = "mk" | 3 SourceNameMetaField = "absent"
+//	6 match        match mode of the actions: 0 and + regexp (historical) | 1 or + regexp | 2 and_prefix + values | 3 or_prefix +
+//	               values | 4 do_if (regex op); +8: MatchInvert with the complementary condition.  In every mode action i applies
+//	               iff the i-th character of "m" is not '0'; what an event WITHOUT the field does differs (the trace shows it)
+//	7 metrics      1 odd actions have no metric name | 2 even actions: MetricLabels [stream nofield], odd: MetricSkipStatus
+//	8 fileCommit   1 InputPlugin.Commit goes to the real file-input jobProvider.commit (labels 118 / 119)
+//	9 earlyStop    n > 0: Pipeline.Stop is called n-1 ms after the feeders finished or one of them asked for it (op 7), WITHOUT
+//	               waiting for quiescence (labels 116 / 120 instead of 115 / 110)
+//	10 batchBytes  BatchSizeBytes of the batchers
+//	11 streamOff   n > 0: every In carries the saved stream offsets {stdout: n} (what the file input passes after a restart);
+//	               with the cri decoder and antispam on, a stdout row below that offset is refused as already processed
+type xopts struct {
+	decoder, maxSize, cutoff, antispam, meta, match, metrics, fileCommit, earlyStop, batchBytes, streamOff int
+}
+
+func parseXopts(ext []hx.Sx) (x xopts) {
+	if len(ext) < 6 {
+		return
+	}
+	for _, kv := range hx.Items(ext[5]) {
+		it := hx.Items(kv)
+		if len(it) != 2 {
+			continue
+		}
+		v := int(hx.Int(it[1]))
+		switch hx.Int(it[0]) {
+		case 1:
+			x.decoder = v
+		case 2:
+			x.maxSize = v
+		case 3:
+			x.cutoff = v
+		case 4:
+			x.antispam = v
+		case 5:
+			x.meta = v
+		case 6:
+			x.match = v
+		case 7:
+			x.metrics = v
+		case 8:
+			x.fileCommit = v
+		case 9:
+			x.earlyStop = v
+		case 10:
+			x.batchBytes = v
+		case 11:
+			x.streamOff = v
+		}
+	}
+	return
+}
+
+// prefixValues: every string over {0,1} of length i followed by '1' - as match VALUES they say "the i-th character is '1'"
+// under the prefix modes (want1) / "... is '0'" (complement, for MatchInvert).
+func prefixValues(i int, want byte) []string {
+	out := []string{}
+	for b := 0; b < 1<<i; b++ {
+		v := make([]byte, i+1)
+		for k := 0; k < i; k++ {
+			v[k] = '0' + byte(b>>k&1)
+		}
+		v[i] = want
+		out = append(out, string(v))
+	}
+	return out
+}
+
+// actionInfo builds the static info of action i for the case's match / metric options.
+func actionInfo(i int, x xopts, factory func() (pipeline.AnyPlugin, pipeline.AnyConfig)) *pipeline.ActionPluginStaticInfo {
+	info := &pipeline.ActionPluginStaticInfo{
+		PluginStaticInfo: &pipeline.PluginStaticInfo{Type: "verifact", Factory: factory},
+		MetricName:       fmt.Sprintf("a%d", i),
+		MatchMode:        pipeline.MatchModeAnd,
+	}
+	invert := x.match&8 != 0
+	// action i applies to an event iff the i-th character of its "m" field is not '0' (the processor consults this only
+	// while the action holds nothing).  Positive form: shorter than i+1 characters, or character i is not '0'; the
+	// complement (for MatchInvert): at least i+1 characters and character i is '0'
+	pos := fmt.Sprintf("^(.{0,%d}|.{%d}[^0].*)$", i, i)
+	neg := fmt.Sprintf("^.{%d}0", i)
+	re := pos
+	want := byte('1')
+	if invert {
+		re, want = neg, '0'
+		info.MatchInvert = true
+	}
+	switch x.match &^ 8 {
+	case 0:
+		info.MatchConditions = pipeline.MatchConditions{{Field: []string{"m"}, Regexp: regexp.MustCompile(re)}}
+	case 1:
+		info.MatchMode = pipeline.MatchModeOr
+		info.MatchConditions = pipeline.MatchConditions{{Field: []string{"nofield"}, Values: []string{"x"}}, {Field: []string{"m"}, Regexp: regexp.MustCompile(re)}}
+	case 2:
+		info.MatchMode = pipeline.MatchModeAndPrefix
+		info.MatchConditions = pipeline.MatchConditions{{Field: []string{"m"}, Values: prefixValues(i, want)}}
+	case 3:
+		info.MatchMode = pipeline.MatchModeOrPrefix
+		info.MatchConditions = pipeline.MatchConditions{{Field: []string{"nofield"}, Values: []string{"x"}}, {Field: []string{"m"}, Values: prefixValues(i, want)}}
+	case 4:
+		// do_if: MatchInvert is not consulted on this path (processor.isMatch returns the checker's answer)
+		info.MatchInvert = false
+		if c, err := doif.NewFromMap(map[string]any{"op": "regex", "field": "m", "values": []any{pos}}); err == nil {
+			info.DoIfChecker = c
+		} else {
+			info.MatchConditions = pipeline.MatchConditions{{Field: []string{"m"}, Regexp: regexp.MustCompile(pos)}}
+		}
+	}
+	switch x.metrics {
+	case 1:
+		if i%2 == 1 {
+			info.MetricName = ""
+		}
+	case 2:
+		if i%2 == 0 {
+			info.MetricLabels = []string{"stream", "nofield"}
+		} else {
+			info.MetricSkipStatus = true
+		}
+	}
+	return info
+}
+
 // RunCase executes one case.
 //
 //	case = (cfg feeders plan [ext])
 //	cfg  = (procs pool capacity eventTimeoutMs nActions outKind workers batchCount flushMs retry deadq spread [gate])
 //	       procs: 1 = DisableParallelism, else 2*GOMAXPROCS at Start (harness sets GOMAXPROCS = procs/2 during Start)
 //	       pool: 0 low-memory (default) | 1 standard
-//	feeders = ((op ...) ...) one goroutine each; op = (0 src offset #json) In | (1 ms) sleep
+//	feeders = ((op ...) ...) one goroutine each; op = (0 src offset #json) In | (1 ms) sleep | (7) ask for the early stop now
 //	          | (6 src offset #json padLen nWide) In of the event `json` extended by a pad of padLen bytes (PadByte) and an
 //	            object "w" of nWide fields k0..: the text grows past AvgEventSize / the Root past its node pool without the
 //	            case text growing; the event says what it must contain ("plen", "off", "wn": see checkEvent)
@@ -552,6 +794,7 @@ func ExpandEvent(js []byte, off int64, padLen, nWide int) []byte {
 //	       maintenance hook, dead-queue sends return at once).  retentionMs > 1 800 000 (30 min) makes the backoff library answer
 //	       backoff.Stop on the FIRST failure of a batch (elapsed + next interval > its MaxElapsedTime of 15 min; the interval is
 //	       drawn from [0.5, 1.5] x retention), whatever the retry count says: the give-up label then carries stop = 1
+//	       A 6th element of ext is a list of (key value) options (see xopts); cases without it run as before.
 //
 // observable = ((objkind objidx kind a b c d) ...) with pointers replaced by indices of first appearance.
 func RunCase(cs hx.Sx) hx.Sx {
@@ -564,8 +807,11 @@ func RunCase(cs hx.Sx) hx.Sx {
 	spread := g(11) != 0
 	feeders := hx.Items(it[1])
 	avgEventSize := 256
+	var xo xopts
 	if len(it) > 3 {
 		ext := hx.Items(it[3])
+		xo = parseXopts(ext)
+		oc.batchBytes = xo.batchBytes
 		x := func(i int) int {
 			if i < len(ext) {
 				return int(hx.Int(ext[i]))
@@ -581,11 +827,45 @@ func RunCase(cs hx.Sx) hx.Sx {
 	log := &caseLog{}
 	settings := &pipeline.Settings{
 		Capacity: capacity, MaintenanceInterval: time.Second * 5, EventTimeout: time.Duration(evTimeout) * time.Millisecond,
-		Antispam: pipeline.AntispamSettings{Threshold: -1}, AvgEventSize: avgEventSize, MetaCacheSize: 8, StreamField: "stream", Decoder: "json",
+		// (a zero antispam maintenance interval makes Pipeline.antispammerMaintenance spin: one busy goroutine per case)
+		Antispam: pipeline.AntispamSettings{Threshold: -1, MaintenanceInterval: time.Second}, AvgEventSize: avgEventSize, MetaCacheSize: 8, StreamField: "stream", Decoder: "json",
 		Metric: &pipeline.MetricSettings{HoldDuration: time.Minute, MaxLabelValueLength: 100},
 	}
 	if poolKind == 1 {
 		settings.Pool = pipeline.PoolTypeStd
+	}
+	suggest := decoder.NO
+	switch xo.decoder {
+	case 1:
+		settings.Decoder = "raw"
+	case 2:
+		settings.Decoder = "cri"
+	case 3:
+		settings.Decoder = "auto"
+	case 4:
+		settings.Decoder = "auto"
+		suggest = decoder.CRI
+	case 5:
+		suggest = decoder.CRI
+	}
+	if xo.metrics == 2 {
+		settings.MaintenanceInterval = 100 * time.Millisecond // Pipeline.maintenance (metrics) runs during the case
+	}
+	if xo.maxSize > 0 {
+		settings.MaxEventSize = xo.maxSize
+		settings.CutOffEventByLimit = xo.cutoff >= 1
+		if xo.cutoff == 2 {
+			settings.CutOffEventByLimitField = "cut"
+		}
+	}
+	if xo.antispam > 0 {
+		settings.Antispam = pipeline.AntispamSettings{Threshold: xo.antispam, MaintenanceInterval: 30 * time.Millisecond}
+	}
+	switch xo.meta {
+	case 2:
+		settings.SourceNameMetaField = "mk"
+	case 3:
+		settings.SourceNameMetaField = "absent"
 	}
 	p := pipeline.New(fmt.Sprintf("verif%p", log), settings, prometheus.NewRegistry(), zap.NewNop())
 	if procs <= 1 {
@@ -594,7 +874,13 @@ func RunCase(cs hx.Sx) hx.Sx {
 	register(p.VerifKey(), log)
 	defer unregister(p.VerifKey())
 
-	var in pipeline.InputPlugin = &fakeInput{}
+	var fc *fileCommit
+	if xo.fileCommit == 1 && !spread {
+		if fc = newFileCommit(log, len(feeders)); fc != nil {
+			fc.pipe = p
+		}
+	}
+	var in pipeline.InputPlugin = &fakeInput{suggest: suggest, fc: fc}
 	if spread {
 		in = &kafkaLikeInput{}
 	}
@@ -603,17 +889,7 @@ func RunCase(cs hx.Sx) hx.Sx {
 		PluginRuntimeInfo: &pipeline.PluginRuntimeInfo{Plugin: in},
 	})
 	for i := 0; i < nActions; i++ {
-		p.AddAction(&pipeline.ActionPluginStaticInfo{
-			PluginStaticInfo: &pipeline.PluginStaticInfo{
-				Type:    "verifact",
-				Factory: func() (pipeline.AnyPlugin, pipeline.AnyConfig) { return &fakeAction{log: log}, nil },
-			},
-			MetricName: fmt.Sprintf("a%d", i),
-			MatchMode:  pipeline.MatchModeAnd,
-			// action i applies to an event iff the i-th character of its "m" field is not '0' (no field: applies);
-			// the processor consults this only while the action holds nothing
-			MatchConditions: pipeline.MatchConditions{{Field: []string{"m"}, Regexp: regexp.MustCompile(fmt.Sprintf("^(.{0,%d}|.{%d}[^0].*)$", i, i))}},
-		})
+		p.AddAction(actionInfo(i, xo, func() (pipeline.AnyPlugin, pipeline.AnyConfig) { return &fakeAction{log: log}, nil }))
 	}
 	out := &fakeOutput{log: log, cfg: oc}
 	p.SetOutput(&pipeline.OutputPluginInfo{
@@ -660,6 +936,18 @@ func RunCase(cs hx.Sx) hx.Sx {
 	}
 	var wg sync.WaitGroup
 	var accepted atomic.Int64
+	stopAsked := make(chan struct{})
+	var askOnce sync.Once
+	var streamOffsets pipeline.SliceMap
+	if xo.streamOff > 0 {
+		streamOffsets = pipeline.SliceFromMap(map[pipeline.StreamName]int64{"stdout": int64(xo.streamOff)})
+	}
+	metaOf := func(src uint64) metadata.MetaData {
+		if xo.meta == 0 {
+			return nil
+		}
+		return metadata.MetaData{"mk": fmt.Sprintf("s%d", src)}
+	}
 	type probe struct {
 		src, off int64
 		t0       time.Time
@@ -682,16 +970,18 @@ func RunCase(cs hx.Sx) hx.Sx {
 				switch hx.Int(o[0]) {
 				case 0:
 					src, off, data := uint64(hx.Int(o[1])), hx.Int(o[2]), hx.Bytes(o[3])
-					seq := p.In(pipeline.SourceID(src), "verif", pipeline.NewOffsets(off, nil), data, false, nil)
+					seq := p.In(pipeline.SourceID(src), "verif", pipeline.NewOffsets(off, streamOffsets), data, false, metaOf(src))
 					if seq == pipeline.EventSeqIDError {
 						log.add(p, LInRefused, int64(src), off, 0, 0)
 					} else {
 						accepted.Add(1)
 					}
+				case 7:
+					askOnce.Do(func() { close(stopAsked) })
 				case 6:
 					src, off := uint64(hx.Int(o[1])), hx.Int(o[2])
 					data := ExpandEvent(hx.Bytes(o[3]), off, int(hx.Int(o[4])), int(hx.Int(o[5])))
-					seq := p.In(pipeline.SourceID(src), "verif", pipeline.NewOffsets(off, nil), data, false, nil)
+					seq := p.In(pipeline.SourceID(src), "verif", pipeline.NewOffsets(off, nil), data, false, metaOf(src))
 					if seq == pipeline.EventSeqIDError {
 						log.add(p, LInRefused, int64(src), off, 0, 0)
 					} else {
@@ -732,8 +1022,41 @@ func RunCase(cs hx.Sx) hx.Sx {
 	go func() { wg.Wait(); close(fed) }()
 	select {
 	case <-fed:
+	case <-stopAsked:
 	case <-time.After(20 * time.Second):
 		log.add(p, LStuck, 2, p.VerifPoolInUse(), p.VerifPoolWaiters(), 0)
+	}
+	if xo.earlyStop > 0 {
+		// shutdown with events in flight: no quiescence is awaited and none is claimed.  What must hold: Stop returns, nothing
+		// panics, and everything the trace shows up to and after the call is still a run of the models (safety half only)
+		time.Sleep(time.Duration(xo.earlyStop-1) * time.Millisecond)
+		log.add(p, LStopCalled, p.VerifPoolInUse(), p.VerifPoolWaiters(), accepted.Load(), 0)
+		stopped := make(chan struct{})
+		go func() {
+			defer close(stopped)
+			defer func() {
+				if r := recover(); r != nil {
+					log.add(p, LPanic, 1, 0, 0, 0)
+				}
+			}()
+			p.Stop()
+		}()
+		select {
+		case <-stopped:
+			log.add(p, LStopDone, p.VerifPoolInUse(), 0, 0, 0)
+		case <-time.After(8 * time.Second):
+			log.add(p, LStuck, 4, 0, 0, 0)
+		}
+		// feeders that were still feeding, processors that still run: give them a moment, then take the trace as it is
+		select {
+		case <-fed:
+		case <-time.After(300 * time.Millisecond):
+		}
+		time.Sleep(30 * time.Millisecond)
+		if fc != nil {
+			fc.finish()
+		}
+		return canonical(log, out)
 	}
 	// quiescence: pool in-use back to zero. The wait is progress based, so that a loaded machine
 	// cannot turn a slow run into a false "stuck": the run counts as wedged only when NO label other
@@ -832,8 +1155,14 @@ func RunCase(cs hx.Sx) hx.Sx {
 		log.add(p, LProbe, lat, pr.bound, pr.src, pr.off)
 	}
 	probeMu.Unlock()
+	if fc != nil {
+		fc.finish()
+	}
+	return canonical(log, out)
+}
 
-	// canonicalise: pointers -> indices of first appearance, per object kind
+// canonical: pointers -> indices of first appearance, per object kind
+func canonical(log *caseLog, out *fakeOutput) hx.Sx {
 	log.mu.Lock()
 	defer log.mu.Unlock()
 	idx := map[int]map[int64]int{1: {}, 2: {}, 3: {}, 4: {}, 5: {}, 0: {}}
@@ -866,9 +1195,9 @@ func RunCase(cs hx.Sx) hx.Sx {
 		// arguments that are stream addresses
 		switch l.kind {
 		case pipeline.VtProcDo, pipeline.VtProcResult, pipeline.VtProcOut, pipeline.VtFinal, pipeline.VtInputCommit,
-			pipeline.VtProcPropagate, pipeline.VtProcSpawn, pipeline.VtProcTimeoutTo:
+			pipeline.VtProcPropagate, pipeline.VtProcSpawn, pipeline.VtProcTimeoutTo, LFileCommit:
 			a[0] = int64(objIndex(2, a[0]))
-		case pipeline.VtBatchAdd, LCommitEv, LDqOut, LIdleTimout:
+		case pipeline.VtBatchAdd, LCommitEv, LDqOut, LIdleTimout, LFileOffset:
 			a[1] = int64(objIndex(2, a[1]))
 		}
 		res = append(res, hx.L(hx.I(ok), hx.I(oi), hx.I(l.kind), hx.Z(a[0]), hx.Z(a[1]), hx.Z(a[2]), hx.Z(a[3])))
